@@ -306,8 +306,7 @@ def tag_kind(case, t, nm=None):
     if t == -1:
         return "null"
     if t == 0:
-        viss = sorted({d["vis"] for u in case["units"] for k, d in u["defs"].items() if k == nm and d["st"] == "common" and d["vis"] != "default"})
-        return "common" + (f"({'+'.join(viss)})" if viss else "")
+        return "common"
     for u in case["units"]:
         for k, d in u["defs"].items():
             if d["tag"] == t:
@@ -488,7 +487,7 @@ def main(ctx):
     ctx.assumptions = ["GNU ld 2.40 and ld.lld 14 calibrate the model; any disagreement is inconclusive",
                        "GNU-unique outside COMDAT is treated as strong, as both reference linkers do"]
     tools.wild()
-    n = ctx.pick(110, 3000)
+    n = ctx.pick(90, 3000)
     jobs = [f"pinned{i}" for i in range(len(pinned_cases()))] + list(range(n))
     if ctx.replay is not None:
         c = str(ctx.replay["case"])
